@@ -473,21 +473,66 @@ func RunExitRace(c ExitRaceCase) (hits int, v *vstat.Violation) {
 		}
 		center := sum / cal
 		span := time.Duration(c.SpanUs) * time.Microsecond
+		// The arrival offset tracks the moment the worker count drops to zero (bang-bang control on what is seen at
+		// arrival), so most attempts land within a microsecond or two of the worker's exit; every 8th attempt takes a
+		// random-looking offset from the sweep instead, in case the interesting window is elsewhere.
+		off := center
+		step := 2 * time.Microsecond
 		for i := 0; i < c.Attempts; i++ {
 			end, v := one()
 			if v != nil {
 				return v
 			}
-			// sweep the arrival moment across [center-span, center+span/2]
-			off := center - span + time.Duration(int64(3*span/2)*int64(i%97)/97)
-			for time.Since(end) < off {
+			at := off
+			if i%8 == 7 {
+				at = center - span + time.Duration(int64(3*span/2)*int64(i%97)/97)
 			}
-			if poolWorkers() == 0 { // informational only: how often we arrived after the exit
+			for time.Since(end) < at {
+			}
+			if poolWorkers() == 0 {
 				hits++
+				if i%8 != 7 {
+					off -= step
+				}
+			} else if i%8 != 7 {
+				off += step
+			}
+			if off < 0 {
+				off = 0
 			}
 		}
 		_, v := one()
 		return v
 	})
 	return
+}
+
+// RunExitSqueeze forces the order "the last idle worker takes its decision to leave; a Call arrives; whatever the worker
+// still does afterwards" through the package lock (see internal/lockstep): the harness holds the lock across the moment
+// the worker's idle timer fires, queues a Call behind it, and lets go. The new future must start within the bound.
+func RunExitSqueeze(idle time.Duration) *vstat.Violation {
+	return vstat.Guard("timers:panic", func() *vstat.Violation {
+		resetPool(10, idle)
+		var done atomic.Int64
+		timeout.Call(func() { done.Store(time.Now().UnixNano()) }, 0)
+		for t := time.Now(); done.Load() == 0; time.Sleep(50 * time.Microsecond) {
+			if time.Since(t) > latenessBound {
+				return vstat.V("timers:never-started", "a Call on a fresh pool was not started within %v", latenessBound)
+			}
+		}
+		end := time.Unix(0, done.Load())
+		time.Sleep(time.Until(end.Add(idle / 2))) // a generous margin: the machine may be busy
+		var got atomic.Bool
+		withPoolLock(func() {
+			time.Sleep(time.Until(end.Add(idle + 8*time.Millisecond))) // the worker's idle timer fires meanwhile: it queues on the lock to take its decision
+			go timeout.Call(func() { got.Store(true) }, 0)
+			time.Sleep(4 * time.Millisecond) // the Call queues behind it; both have waited > 1 ms: FIFO hand-over
+		})
+		for t := time.Now(); !got.Load(); time.Sleep(100 * time.Microsecond) {
+			if time.Since(t) > latenessBound {
+				return vstat.V("timers:never-started", "a Call that arrived right behind the last idle worker's decision to leave was not started within %v (pending=%d workers=%d goroutines=%d)", latenessBound, pending(), poolWorkers(), watcherGoroutines())
+			}
+		}
+		return nil
+	})
 }
